@@ -477,7 +477,7 @@ func (g *G) scForInMap() *Scenario {
 	} else {
 		kvs := make([][2]*Expr, n)
 		for i := range kvs {
-			kvs[i] = [2]*Expr{Str(keys[i]), Int(g.r.Intn(7) + 1)}
+			kvs[i] = [2]*Expr{Str(keys[i]), Int(3*i + 1 + g.r.Intn(3))} // distinct values: `{v: k for k, v <- m}` must not depend on map order
 		}
 		body = append(body, Def1(m, MapLit(TStr, TInt, kvs...)))
 	}
